@@ -240,3 +240,66 @@ package resource
 //@ func Equal
 //@   trusted
 //@   pure
+
+// C18: reading metadata back from its wire form. The getters of the wire message are named by
+// specification functions; scalar fields come back as they are, version and phase through their
+// parsers, the timestamps through the well-known-type accessor. (The finalizer, label and annotation
+// sets are rebuilt element by element and are not described here.)
+//@ fn wireNs(p MetadataProto) string
+//@ fn wireType(p MetadataProto) string
+//@ fn wireId(p MetadataProto) string
+//@ fn wireOwner(p MetadataProto) string
+//@ fn wireVersion(p MetadataProto) string
+//@ fn wirePhase(p MetadataProto) string
+//@ iface MetadataProto.GetNamespace
+//@   pure
+//@   ensures result == wireNs(self)
+//@ iface MetadataProto.GetType
+//@   pure
+//@   ensures result == wireType(self)
+//@ iface MetadataProto.GetId
+//@   pure
+//@   ensures result == wireId(self)
+//@ iface MetadataProto.GetOwner
+//@   pure
+//@   ensures result == wireOwner(self)
+//@ iface MetadataProto.GetVersion
+//@   pure
+//@   ensures result == wireVersion(self)
+//@ iface MetadataProto.GetPhase
+//@   pure
+//@   ensures result == wirePhase(self)
+//@ fn wireCreated(p MetadataProto) *google.golang.org/protobuf/types/known/timestamppb.Timestamp
+//@ fn wireUpdated(p MetadataProto) *google.golang.org/protobuf/types/known/timestamppb.Timestamp
+//@ iface MetadataProto.GetCreated
+//@   pure
+//@   ensures result == wireCreated(self)
+//@ iface MetadataProto.GetUpdated
+//@   pure
+//@   ensures result == wireUpdated(self)
+//@ iface MetadataProto.GetFinalizers
+//@   pure
+//@ iface MetadataProto.GetAnnotations
+//@   pure
+//@ iface MetadataProto.GetLabels
+//@   pure
+//@ func NewMetadataFromProto
+//@   props C18
+//@   requires [message] proto != nil
+//@   ensures [scalar-fields-as-they-are] result1 == nil ==> result0.ns == wireNs(proto) && result0.typ == wireType(proto) && result0.id == wireId(proto) && result0.owner == wireOwner(proto)
+//@   ensures [phase-read-back] result1 == nil ==> (wirePhase(proto) == "running" ==> result0.phase == PhaseRunning) && (wirePhase(proto) == "tearingDown" ==> result0.phase == PhaseTearingDown)
+//@   ensures [version-read-back] result1 == nil ==> (forall n uint64 :: 0 <= n && n <= 18446744073709551615 && wireVersion(proto) == decimalOf(n) ==> result0.ver.uint64 != nil && *result0.ver.uint64 == n)
+//@   ensures [timestamps-read-back] result1 == nil ==> (wireCreated(proto) != nil ==> result0.created == timeOf(wireCreated(proto))) && (wireUpdated(proto) != nil ==> result0.updated == timeOf(wireUpdated(proto)))
+//@   ensures [unknown-phase-rejected] wirePhase(proto) != "running" && wirePhase(proto) != "tearingDown" ==> result1 != nil
+//@   loop #1
+//@     invariant [fields-kept] proto != nil && md.ns == wireNs(proto) && md.typ == wireType(proto) && md.id == wireId(proto) && md.owner == wireOwner(proto) && md.phase == phase && md.ver.uint64 == ver.uint64 &&
+//@       (wireCreated(proto) != nil ==> md.created == timeOf(wireCreated(proto))) && (wireUpdated(proto) != nil ==> md.updated == timeOf(wireUpdated(proto))) &&
+//@       (forall n uint64 :: 0 <= n && n <= 18446744073709551615 && wireVersion(proto) == decimalOf(n) ==> md.ver.uint64 != nil && *md.ver.uint64 == n)
+//@   loop #2
+//@     invariant [fields-kept] proto != nil && md.ns == wireNs(proto) && md.typ == wireType(proto) && md.id == wireId(proto) && md.owner == wireOwner(proto) && md.phase == phase && md.ver.uint64 == ver.uint64 &&
+//@       (wireCreated(proto) != nil ==> md.created == timeOf(wireCreated(proto))) && (wireUpdated(proto) != nil ==> md.updated == timeOf(wireUpdated(proto))) &&
+//@       (forall n uint64 :: 0 <= n && n <= 18446744073709551615 && wireVersion(proto) == decimalOf(n) ==> md.ver.uint64 != nil && *md.ver.uint64 == n)
+//@   loop #3
+//@     invariant [fields-kept] proto != nil && md.ns == wireNs(proto) && md.typ == wireType(proto) && md.id == wireId(proto) && md.owner == wireOwner(proto) && md.phase == phase && md.ver.uint64 == ver.uint64 &&
+//@       (wireCreated(proto) != nil ==> md.created == timeOf(wireCreated(proto))) && (wireUpdated(proto) != nil ==> md.updated == timeOf(wireUpdated(proto))) &&
+//@       (forall n uint64 :: 0 <= n && n <= 18446744073709551615 && wireVersion(proto) == decimalOf(n) ==> md.ver.uint64 != nil && *md.ver.uint64 == n)
